@@ -91,7 +91,9 @@ TEXT = {
  'C19': dict(level="Queue part proved: C19_answer (exactly one answer: BAD_REQUEST iff a field is empty, else TOO_BUSY iff the queue is full, else accepted; the step is total and never ends the connection - "
                    "a refusal that did was closed over before it was written, finding F29), "
                    "C19_bounded, C19_conservation (over any event the forwarded-or-queued receipts are those of before plus exactly the accepted submission, unchanged, once), "
-                   "C19_drain. The validity predicate (Keccak-256, signature recovery) and the HTTP forwarding are NOT modelled: they are exercised on the real "
+                   "C19_drain. Validity part (Model/Receipt.lean, Props/C19Valid.lean; Keccak-256 and the curve arithmetic are oracles): C19_forwarded_iff, C19_forwarded_count (as often as accepted, never otherwise), "
+                   "C19_invalid_never_forwarded (a wrong hash, a signature that is not 65 bytes, a recovery id above 3 whatever the linked Ecrecover makes of it - finding F42 -, no key recovered); per accepted triple the "
+                   "receipts harness prints the four facts and how often the stand-in credit service received it, and the driver evaluates the model. The HTTP forwarding is NOT modelled: it is exercised on the real "
                    "HandleReceipts loop by go/cmd/receipts (valid triples, 14 single-field corruptions, service up/slow/down, queue full; built and run with and without cgo, whose signature recovery differs on recovery ids 4 - 7: finding F42) against a reference validity written from the statement (Keccak-256, 65 bytes, recovery id 0 - 3, a key is recovered); that the answers reach the submitter over a real socket and that its connection goes on: go/cmd/wire scenario receipts.",
              note=_std_note + " Cryptographic primitives are oracles computed with go-ethereum; HTTP delivery is observed, not modelled.", technique=_tech + " + receipts side harness"),
  'C15': dict(level="C15_gate (the protected handler runs iff Auth.admit, and a rejected request leaves its state untouched), C15_sound (admission implies a held secret, a "
